@@ -565,3 +565,11 @@ def mc(ctx):
 
 
 RULES.append(mc)
+
+
+@rule("Q4", doc="compose_fresh / bijection_from_fresh_to give every key they invent a value for its OWN Slot::fresh(): the slot is drawn inside the loop over the keys, never once in front of it (C03.H10 fresh-hoisted) — with a shared slot the result of compose_fresh is not injective although both operands are")
+def q4(ctx):
+    C.fresh_hoist_census(ctx, ctx.lib())
+
+
+RULES.append(q4)
